@@ -18,7 +18,7 @@ READ_ENCODINGS = ['utf-8', 'utf-16', 'latin-1', 'utf-32-be', 'utf-16-be', 'utf-3
                   'utf-8-sig', 'utf-16-le', 'utf-32-le', 'cp037', 'shift_jis', 'UTF-16', 'utf_8',
                   'Latin1', 'U32', 'iso-8859-15', 'koi8_r']
 
-DEFECTS = ['version_missing', 'version_2', 'version_int', 'length_missing', 'no_trailing_newline',
+DEFECTS = ['version_missing', 'version_2', 'version_int', 'version_alias', 'length_missing', 'no_trailing_newline',
            'format_yaml', 'json_truncated', 'json_trailing_comma', 'json_bareword', 'json_extra_data', 'le_mac',
            'main_repeated', 'main_not_first']
 
@@ -126,6 +126,10 @@ def build_file(ids, rng, style=None, encs=None, defect=None, defect_at=None, unk
                     applied = True
                 elif here and defect == 'version_int':
                     ver = '1'
+                    applied = True
+                elif here and defect == 'version_alias':
+                    # numerically 1.0, but not the version string of the specification
+                    ver = rng.choice(['1.00', '01.0', '1.0_0', '1.-0', '1.0.0', '1.', '001.000', '1.0e0'])
                     applied = True
                 if ver is not None:
                     opts.append(('version', ver))
